@@ -130,6 +130,46 @@ func runC01(c *Ctx) {
 			}
 			c.Check(ok, "v@"+u.EnclName(), "dispatchState.v is accessed only by dispatchState's own methods", u.Where(c.P), "access outside the state machine's methods")
 		}
+		// transition table of the state word: ownership (Processing) is acquired only by a CAS from Scheduled
+		idle, sched, proc := c.Const("actor", "dispatchIdle"), c.Const("actor", "dispatchScheduled"), c.Const("actor", "dispatchProcessing")
+		constOf := func(info *types.Info, e ast.Expr) *types.Const {
+			if id, ok := ast.Unparen(e).(*ast.Ident); ok {
+				k, _ := info.Uses[id].(*types.Const)
+				return k
+			}
+			return nil
+		}
+		for _, u := range c.UsesOf(t.stateV) {
+			var call *ast.CallExpr
+			ok := false
+			if len(u.Path) >= 3 {
+				call, ok = u.Path[len(u.Path)-3].(*ast.CallExpr)
+			}
+			if !ok {
+				c.Bad("transition@"+u.EnclName()+"/shape", "the state word is used only through Load / CompareAndSwap / Store calls", u.Where(c.P), "dispatchState.v is used other than as the receiver of an atomic method call")
+				continue
+			}
+			sel, _ := call.Fun.(*ast.SelectorExpr)
+			if sel == nil {
+				continue
+			}
+			info := u.Pkg.TypesInfo
+			key := "transition@" + u.EnclName() + "/" + sel.Sel.Name
+			rule := "the dispatch state changes only by CAS Idle→Scheduled, CAS Scheduled→Processing, Store(Scheduled) in YieldToScheduled and Store(Idle) in reset: a worker becomes the owner only by winning the CAS from Scheduled"
+			switch sel.Sel.Name {
+			case "Load":
+				c.Ok(key, rule, u.Where(c.P))
+			case "CompareAndSwap":
+				from, to := constOf(info, call.Args[0]), constOf(info, call.Args[1])
+				c.Check((from == idle && to == sched) || (from == sched && to == proc), key, rule, u.Where(c.P), "CompareAndSwap("+types.ExprString(call.Args[0])+", "+types.ExprString(call.Args[1])+") is not a transition of the table")
+			case "Store":
+				to := constOf(info, call.Args[0])
+				okStore := (to == sched && u.EnclObj == t.yield) || (to == idle && u.EnclObj == t.reset)
+				c.Check(okStore, key, rule, u.Where(c.P), "Store("+types.ExprString(call.Args[0])+") in "+u.EnclName()+" forces the state without a CAS: a worker that already owns the actor is overridden or a second owner is created")
+			default:
+				c.Bad(key, rule, u.Where(c.P), "atomic operation "+sel.Sel.Name+" is not part of the state machine")
+			}
+		}
 		turnFns := map[string]string{
 			"actor.(*PID).runTurn": "PID turn loop", "actor.(*grainPID).runTurn": "grain turn loop",
 			"actor.(*PID).finishOrReclaim": "reclaim handshake", "actor.(*grainPID).finishOrReclaim": "reclaim handshake",
